@@ -83,10 +83,10 @@ theorem C24_light_min_max_over (H : OpsOK) (Q : QueriesOK) (anno : Nat → SI) (
 EVERY interval operation the backend dispatches to is proved now (C21, C22): `add, sub, mul, udiv, urem, neg, not, and, or,
 xor, concat, zero_extend, sign_extend, extract, shl, lshr, ashr`, the join of `If`, the eight orderings, `==` / `!=`.  `OpsRest` is
 kept as a hypothesis slot of `convBV_rest_good` but no AST triggers it any more (`usesRestBV_false`), so `C24_sound` below has
-no hypothesis on interval operations.  `==` / `!=` / `*` go through the meet and `%` through `*`; the meet is sound on ALIGNED
-operands only (open findings `C2x/eq|ne|mul|intersection/unsound/unaligned-operand`): the guard `alBV` / `alB` says that the
-abstract operands at every `==` / `!=` / `*` node and the divisor at every `%` node are aligned; it is void for ASTs without
-these nodes (`alBV_of_noEq`).  ASTs here have a
+no hypothesis on interval operations.  `==` / `!=` / `*` go through the meet, which is sound on ALIGNED operands only (open
+findings `C2x/eq|ne|mul|intersection/unsound/unaligned-operand`): the guard `alBV` / `alB` says that the abstract operands at
+every `==` / `!=` / `*` node are aligned; it is void for ASTs without these nodes (`alBV_of_noEq`).  `%` needs no guard any more
+(`C21_mod_sound`: sound for every divisor).  ASTs here have a
 value at every node (`DefBV`); the annotations are in the form the constructor returns (`Nrm`, which is the only form Python
 holds), and the induction shows every intermediate abstract value has it too — that is what the signed orderings and the
 meet need. -/
@@ -102,7 +102,7 @@ theorem C24_convert_sound_rest (anno : Nat → SI) (env : Nat → Nat)
 
 /-- **unconditional on the interval operations** for ASTs built from the proved operations: variables with annotations,
 constants, `+ - neg ~ & | ^`, `ZeroExt`, `SignExt`, `Extract`, `Concat`, `/u`, `<<`, `LShR`, `>>` (arithmetic), `If`, the
-unsigned and signed orderings, the Boolean connectives, and `==` / `!=` / `*` / `%` under the alignment guard -/
+unsigned and signed orderings, the Boolean connectives, `%`, and `==` / `!=` / `*` under the alignment guard -/
 theorem C24_fragment_sound (anno : Nat → SI) (env : Nat → Nat)
     (hctx : ∀ i, (anno i).WF ∧ (anno i).mem (env i)) (hnrm : ∀ i, Nrm (anno i))
     (e : BV) (hfrag : usesRestBV e = false) (hdef : DefBV env e)
@@ -110,7 +110,7 @@ theorem C24_fragment_sound (anno : Nat → SI) (env : Nat → Nat)
     (v : Nat) (hv : evalBV env e = some v) : av.si.WF ∧ av.si.bits = wd e ∧ av.si.mem v :=
   C24_convert_sound_rest anno env hctx hnrm e (fun hh => by rw [hfrag] at hh; cases hh) hdef o o' hal av hwt h v hv
 
-/-- **every AST**: the abstract value contains the concrete value, under the alignment guard at `==` / `!=` / `*` / `%` nodes
+/-- **every AST**: the abstract value contains the concrete value, under the alignment guard at `==` / `!=` / `*` nodes
 (for ASTs with a value at every node, over normal annotations) -/
 theorem C24_sound (anno : Nat → SI) (env : Nat → Nat)
     (hctx : ∀ i, (anno i).WF ∧ (anno i).mem (env i)) (hnrm : ∀ i, Nrm (anno i))
@@ -126,7 +126,7 @@ theorem C24_sound_bool (anno : Nat → SI) (env : Nat → Nat)
     (h : convB anno c o = .ok (br, o')) (b : Bool) (hb : evalB env c = some b) : br.has b = true :=
   convB_rest_good anno env hctx hnrm c o br o' (fun hh => by rw [usesRestB_false c] at hh; cases hh) hal hdef hwt h b hb
 
-/-- … without any guard when the AST has no `==` / `!=` / `*` / `%` node -/
+/-- … without any guard when the AST has no `==` / `!=` / `*` node -/
 theorem C24_fragment_noeq_sound (anno : Nat → SI) (env : Nat → Nat)
     (hctx : ∀ i, (anno i).WF ∧ (anno i).mem (env i)) (hnrm : ∀ i, Nrm (anno i))
     (e : BV) (hfrag : usesRestBV e = false) (hnoeq : usesEqBV e = false) (hdef : DefBV env e)
@@ -188,7 +188,7 @@ def demoEq : BV := .ite (.cmp .eq (.bin .and (.var 0 3) (.const 6 3)) (.const 4 
 example : usesRestBV demoEq = false ∧ alBV demoAnno demoEq [] := by
   refine ⟨by decide, ?_⟩
   simp only [demoEq, alBV, alB, true_and]
-  refine ⟨⟨(fun _ _ _ _ => ⟨(fun he => (by cases he)), (fun he => (by rcases he with he | he <;> cases he))⟩), ?_⟩, fun _ _ _ _ => trivial⟩
+  refine ⟨⟨(fun _ _ _ _ => ⟨(fun he => (by cases he)), (fun he => (by cases he))⟩), ?_⟩, fun _ _ _ _ => trivial⟩
   intro p1 h1 _ p2 h2
   have e1 : p1 = ({ si := { bits := 3, stride := 1, lb := 2, ub := 6 } }, []) := by
     have : convBV demoAnno (.bin .and (.var 0 3) (.const 6 3)) [] = .ok ({ si := { bits := 3, stride := 1, lb := 2, ub := 6 } }, []) := by decide
@@ -214,12 +214,12 @@ sign_extend, extract, concat`, the join of `If` (`Lemmas/VSA/Aligned*.lean`, `C2
 udiv` (and `mul`, `sub` w.r.t. the subtrahend, `urem` w.r.t. nothing but the dividend) do so whatever the operands are.  The only
 interval operation of the class that can turn aligned operands into an unaligned result is `widen` (`C22.widen_breaks_alignment`),
 which is not an operator of these ASTs.  Hence the guard `alBV` / `alB` follows from a SYNTACTIC condition on the AST and the
-annotations, `guardFreeBV` / `guardFreeB`: below every `==` / `!=` / `*` operand and every `%` divisor, the annotations of the
-variables that reach that position through `+ | Concat If ZeroExt SignExt Extract` or as the LEFT operand of `- % << LShR >>` are
-aligned (`alSrc`); variables below a `neg ~ & ^ /u *` node, on the right of `- << LShR >> %`, or in an `If` condition, need not be.
+annotations, `guardFreeBV` / `guardFreeB`: below every `==` / `!=` / `*` operand, the annotations of the variables that reach that
+position through `+ | % Concat If ZeroExt SignExt Extract` or as the LEFT operand of `- << LShR >>` are aligned (`alSrc`);
+variables below a `neg ~ & ^ /u *` node, on the right of `- << LShR >>`, or in an `If` condition, need not be.
 With all annotations aligned no condition is left at all (`C24_sound_aligned`). -/
 
-/-- **no alignment guard**: bit-vector ASTs whose `==` / `!=` / `*` / `%`-divisor positions are fed from aligned annotations
+/-- **no alignment guard**: bit-vector ASTs whose `==` / `!=` / `*` operand positions are fed from aligned annotations
 (`guardFreeBV`; every operation of the AST language is allowed everywhere) -/
 theorem C24_sound_aligned_fragment (anno : Nat → SI) (env : Nat → Nat)
     (hctx : ∀ i, (anno i).WF ∧ (anno i).mem (env i)) (hnrm : ∀ i, Nrm (anno i))
